@@ -134,8 +134,8 @@ def setup(ctx):
     _state['guard_early'] = tuple(guard_early)
     _state['guard_mut'] = tuple(guard_mut)
     ctx.info['features_bounded_to_%d_percent_of_random_histories' % round(100 * KNOWN_TRIGGER_SHARE)] = \
-        ['init(T) of %s before the first public touch' % g for g in guard_early] + \
-        ['mut:%s:%s' % gv for gv in guard_mut]
+        '; '.join(['init(T) of %s before the first public touch' % g for g in guard_early] +
+                  ['mut:%s:%s' % gv for gv in guard_mut]) or 'none'
 
 
 def generate(ctx):
@@ -246,6 +246,8 @@ def check_history(ctx, case):
     ctx.count('history_events', len(h))
     if r['skipped']:
         ctx.count('histories_with_skipped_illegal_events')
+        if not ctx.replay:
+            ctx.harness_error('the generator emitted events that are illegal in their history: %r in %r' % (r['skipped'], h))
     if r['early_inits']:
         ctx.count('histories_with_init_before_public_touch')
     if any(tuple(e.split(':')[2:4]) in _state.get('guard_mut', ()) for e in h if e.startswith('mut:')) or \
@@ -265,9 +267,19 @@ def check_history(ctx, case):
     annot = dict((s, {'vanishes_without': [], 'projection_has': None}) for s in sigs)
     if value_sigs:
         # siblings: the same history without one feature
-        feats = [('early-init:%s' % g, X.warm_sibling(h, g)) for g in early] + \
-                [('mut:%s:%s' % gv, X.without_mutations(h, *gv)) for gv in muts]
-        for name, sib in feats[:10]:
+        # only features that can bear on a violating group: its own early init, mutations of the group
+        # or of a group it is derived from (all mutations when the violation has no group)
+        vg = set()
+        for s in value_sigs:
+            vg.update(str(s[2]).split('+'))
+        rel = set(vg)
+        for g0, deps in X.DEPENDENTS.items():
+            if vg & set(deps):
+                rel.add(g0)
+        anyg = '-' in vg or '' in vg
+        feats = [('mut:%s:%s' % gv, X.without_mutations(h, *gv)) for gv in muts if anyg or gv[0] in rel] + \
+                [('early-init:%s' % g, X.warm_sibling(h, g)) for g in early if anyg or g in vg]
+        for name, sib in feats[:24]:
             st2, r2 = _run(ctx, sib)
             ctx.count('sibling_histories')
             if st2 != 'ok':
